@@ -95,7 +95,7 @@ Definition step (s : st) (e : ev) : st :=
                     (match k with KSearch _ => true | _ => false end) (match k with KSearch _ => true | _ => false end) [] None in
       let s1 := s <| last := mid |> <| inuse ::= cons mid |> in
       if is_running s then s1 <| ops ::= fun l => l ++ [o] |> <| opq ::= fun q => q ++ [length (ops s)] |>
-      else s1 <| ops ::= fun l => l ++ [o <| o_status := CErr EOpSend |> <| o_rx := false |> <| o_chan := false |>] |>
+      else s1 <| ops ::= fun l => l ++ [o <| o_status := CErr EOpSend |> <| o_reply := OsClosed |> <| o_rx := false |> <| o_chan := false |>] |>
     | _ => s end
   | DrvOp =>
     if negb (is_running s) then s else
